@@ -79,36 +79,36 @@ struct ScriptRng {
 	float next() noexcept { vf::HarnessScope hs; return (*cur)->nextRandom(); }
 };
 
-using Cfg0 = hfsm2::Config::ContextT<vf::NodeCtx>;
-#if VF_MANUAL
-using Cfg1 = Cfg0::ManualActivation;
-#else
-using Cfg1 = Cfg0;
-#endif
-#if VF_BOTTOMUP
-using Cfg2 = Cfg1::BottomUpReactions;
-#else
-using Cfg2 = Cfg1;
-#endif
-#if VF_UTILITY && !VF_BUILTIN_RNG
-using Cfg3 = Cfg2::RandomT<ScriptRng>;
-#else
-using Cfg3 = Cfg2;
+// Every option is an alias that must carry all the others along: the chain is built in one of two orders (VF_CHAIN), and the rank / utility types are
+// named explicitly (with the library's defaults, so the machine type is the same) to put those aliases into the chain as well.
+template <typename C, int Which, bool On> struct Opt { using type = C; };
+template <typename C> struct Opt<C, 0, true> { using type = typename C::template ContextT<vf::NodeCtx>; };
+template <typename C> struct Opt<C, 1, true> { using type = typename C::ManualActivation; };
+template <typename C> struct Opt<C, 2, true> { using type = typename C::BottomUpReactions; };
+#if VF_UTILITY
+template <typename C> struct Opt<C, 3, true> { using type = typename C::template RankT<int8_t>; };
+template <typename C> struct Opt<C, 4, true> { using type = typename C::template UtilityT<float>; };
+template <typename C> struct Opt<C, 5, true> { using type = typename C::template RandomT<ScriptRng>; };
 #endif
 #if VF_SUBST
-using Cfg4 = Cfg3::SubstitutionLimitN<VF_SUBST>;
-#else
-using Cfg4 = Cfg3;
+template <typename C> struct Opt<C, 6, true> { using type = typename C::template SubstitutionLimitN<VF_SUBST>; };
 #endif
 #if VF_PLANS && VF_TASKCAP
-using Cfg5 = Cfg4::TaskCapacityN<VF_TASKCAP>;
-#else
-using Cfg5 = Cfg4;
+template <typename C> struct Opt<C, 7, true> { using type = typename C::template TaskCapacityN<VF_TASKCAP>; };
 #endif
 #if VF_PAYLOAD
-using Cfg = Cfg5::PayloadT<Payload>;
+template <typename C> struct Opt<C, 8, true> { using type = typename C::template PayloadT<Payload>; };
+#endif
+template <typename C, int W> using Ap = typename Opt<C, W,
+	W == 0 ? true : W == 1 ? (VF_MANUAL != 0) : W == 2 ? (VF_BOTTOMUP != 0) : (W == 3 || W == 4) ? (VF_UTILITY != 0) : W == 5 ? (VF_UTILITY != 0 && VF_BUILTIN_RNG == 0)
+	: W == 6 ? (VF_SUBST != 0) : W == 7 ? (VF_PLANS != 0 && VF_TASKCAP != 0) : (VF_PAYLOAD != 0)>::type;
+#ifndef VF_CHAIN
+#define VF_CHAIN 0
+#endif
+#if VF_CHAIN == 0
+using Cfg = Ap<Ap<Ap<Ap<Ap<Ap<Ap<Ap<Ap<hfsm2::Config, 0>, 1>, 2>, 3>, 4>, 5>, 6>, 7>, 8>;
 #else
-using Cfg = Cfg5;
+using Cfg = Ap<Ap<Ap<Ap<Ap<Ap<Ap<Ap<Ap<hfsm2::Config, 8>, 7>, 6>, 5>, 4>, 3>, 2>, 1>, 0>;
 #endif
 
 using M = hfsm2::MachineT<Cfg>;
@@ -942,6 +942,12 @@ struct Node final : vf::INode {
 #if VF_HISTORY
 		std::vector<Transition> v; for (const auto& t : trs) v.push_back(fromTr(t));
 		drive(); vf::LibScope ls;
+		// two overloads: pointer + count, and the bounded array previousTransitions() returns; which one is a function of the list itself
+		using Sets = typename std::decay<decltype(inst->previousTransitions())>::type;
+		if (!v.empty() && ((v.size() + size_t(v[0].destination)) & 1) != 0 && v.size() <= size_t(Sets::CAPACITY)) {
+			Sets arr; for (const auto& t : v) arr.emplace(t);
+			return inst->replayTransitions(arr);
+		}
 		return inst->replayTransitions(v.data(), hfsm2::Short(v.size()));
 #else
 		(void) trs; return false;
@@ -951,6 +957,11 @@ struct Node final : vf::INode {
 #if VF_HISTORY && VF_MANUAL
 		std::vector<Transition> v; for (const auto& t : trs) v.push_back(fromTr(t));
 		drive(); vf::LibScope ls;
+		using Sets = typename std::decay<decltype(inst->previousTransitions())>::type;
+		if (!v.empty() && ((v.size() + size_t(v[0].destination)) & 1) != 0 && v.size() <= size_t(Sets::CAPACITY)) {
+			Sets arr; for (const auto& t : v) arr.emplace(t);
+			return inst->replayEnter(arr);
+		}
 		return inst->replayEnter(v.data(), hfsm2::Short(v.size()));
 #else
 		(void) trs; return false;
